@@ -94,6 +94,9 @@ def build_spec(skel, sym=None):
                        "modifiers": [mod(sym, t, n, f"{p}.{t}.{n}", nbins) for t, n in mods]})
         channels.append({"name": cname, "samples": ss})
     spec = {"channels": channels}
+    # optional exact zeros (a yield or an uncertainty that vanishes): the named leaves become the concrete number 0.0
+    for leaf in skel.get("zeros", []):
+        _set_leaf(spec, sym, leaf)
     pars = []
     if any(t == "lumi" for _, _, ss in skel["channels"] for _, ms in ss for t, _ in ms):
         pars.append({"name": "lumi", "auxdata": [sym("lumi.aux")], "sigmas": [sym("lumi.sigma")], "bounds": [[0.0, 10.0]], "inits": [1.0]})
@@ -101,6 +104,43 @@ def build_spec(skel, sym=None):
     if pars:
         spec["parameters"] = pars
     return spec, sym
+
+
+def _set_leaf(spec, sym, leaf):
+    target = sym.leaves.pop(getattr(sym, "prefix", "") + leaf, None) if hasattr(sym, "leaves") else None
+    if target is not None and not z3.is_expr(target):
+        target = None
+
+    def walk(x):
+        if isinstance(x, list):
+            for k, v in enumerate(x):
+                if (target is not None and z3.is_expr(v) and v.eq(target)) or (target is None and False):
+                    x[k] = 0.0
+                else:
+                    walk(v)
+        elif isinstance(x, dict):
+            for k, v in x.items():
+                if target is not None and z3.is_expr(v) and v.eq(target):
+                    x[k] = 0.0
+                else:
+                    walk(v)
+    if target is not None:
+        walk(spec)
+    else:
+        # numeric factory (native replay): address the leaf by its path c.s.nB / c.s.type.name.uB
+        parts = leaf.split(".")
+        for c in spec["channels"]:
+            if c["name"] != parts[0]:
+                continue
+            for s_ in c["samples"]:
+                if s_["name"] != parts[1]:
+                    continue
+                if len(parts) == 3 and parts[2].startswith("n"):
+                    s_["data"][int(parts[2][1:])] = 0.0
+                elif len(parts) == 5:
+                    for m in s_["modifiers"]:
+                        if m["type"] == parts[2] and m["name"] == parts[3] and isinstance(m["data"], list):
+                            m["data"][int(parts[4][1:])] = 0.0
 
 
 CURATED = [
@@ -118,6 +158,8 @@ CURATED = [
                                                          ("c2", 2, [("bkg", [("normsys", "n1"), ("shapesys", "s2")])])], "poi": "mu"}),
     ("all-seven-types", {"channels": [("c1", 2, [("sig", [("normfactor", "mu"), ("lumi", "lumi"), ("normsys", "n1"), ("histosys", "h1")]),
                                                   ("bkg", [("shapesys", "ss"), ("staterror", "st"), ("shapefactor", "sf"), ("histosys", "h1")])])], "poi": "mu"}),
+    ("staterror-sample-with-zero-nominal-bin", {"channels": [("c1", 2, [("sig", [("normfactor", "mu"), ("staterror", "st")]), ("bkg", [("staterror", "st"), ("normsys", "n1")])])],
+                                                "poi": "mu", "zeros": ["c1.sig.n0"]}),
     ("listing-order-unsorted", {"channels": [("zz", 1, [("y", [("normsys", "b"), ("normfactor", "mu"), ("histosys", "a")]), ("x", [("staterror", "st"), ("normsys", "a")])]),
                                               ("aa", 2, [("x", [("staterror", "st2"), ("histosys", "a")])])], "poi": "mu"}),
 ]
